@@ -68,8 +68,9 @@ AddJoin == /\ CanGrow /\ "Join" \in Kinds
                 Add([T("Join") EXCEPT !.sup = FALSE, !.refs = <<c, nid>>, !.cols = <<nid>>, !.side = side])
            /\ vis' = Append(vis, nid) /\ nid' = nid + 1
            /\ UNCHANGED <<phase, ncomp, srt, grouped>> /\ Same
+\* append / remove / intersect as preprocess leaves them: PQ set operations
 AddUnion == /\ CanGrow /\ "Union" \in Kinds
-            /\ Add([T("Union") EXCEPT !.sup = FALSE])
+            /\ \E k \in {"Union", "Except", "Intersect"} \cap Kinds : Add([T(k) EXCEPT !.sup = FALSE])
             /\ srt' = FALSE /\ UNCHANGED <<phase, vis, nid, ncomp, grouped>> /\ Same
 
 Decl(p) == LET cs == { i \in 1 .. Len(p) : p[i].k = "Compute" }
